@@ -8,7 +8,7 @@ Line protocol (payloads are opaque hex strings; the model never looks inside the
   exprs:   s-expressions `( atom TOK )`, `( name H )`, `( num N TAG H )`, `( unop OP E )`,
            `( binop OP L R )`, `( isop 0|1 L H )`, `( ifelse 0|1 C A B )`, `( cast H E )`,
            `( detached E )`, `( call H E* )`, `( tuple E* )`, `( array E* )`, `( set E* )`,
-           `( index A E+ )`     (every parenthesis is its own blank-separated word)
+           `( index A E+ )`, `( path B H+ )`     (every parenthesis is its own blank-separated word)
   requests:  `pp <expr>` -> tokens | `parse <tokens>` -> expr or `none` | `rt <expr>` -> `ok` / result
 -/
 
@@ -53,6 +53,14 @@ partial def showExpr : Expr → String
   | .array es => "( array" ++ String.join (es.map fun a => " " ++ showExpr a) ++ " )"
   | .set es => "( set" ++ String.join (es.map fun a => " " ++ showExpr a) ++ " )"
   | .index a idx => "( index " ++ showExpr a ++ String.join (idx.map fun a => " " ++ showExpr a) ++ " )"
+  | .path b s ss => "( path " ++ showExpr b ++ String.join ((s :: ss).map fun a => " " ++ a) ++ " )"
+
+/-- plain words up to the closing `)` -/
+def readWords : List String → Option (List String × List String)
+  | ")" :: r => some ([], r)
+  | "(" :: _ => none
+  | w :: r => (readWords r).map fun (ws, r') => (w :: ws, r')
+  | [] => none
 
 mutual
   /-- reads one expression from the word list -/
@@ -105,6 +113,13 @@ mutual
     | "(" :: "index" :: r =>
         match readExpr r with
         | some (a, r1) => (readList r1).bind fun (es, r') => if es.isEmpty then none else some (.index a es, r')
+        | none => none
+    | "(" :: "path" :: r =>
+        match readExpr r with
+        | some (b, r1) =>
+          match readWords r1 with
+          | some (s :: ss, r') => some (.path b s ss, r')
+          | _ => none
         | none => none
     | _ => none
   /-- expressions up to the closing `)` -/
